@@ -706,7 +706,7 @@ func checkC16(tier string) {
 				sc.Disk.Put(w.Path, append(append([]byte{}, b...), []byte("\n// tail of an older, longer output\nfunc zzOld() {}\n")...), "stale extension")
 			}
 			c.count("real_directory_runs_with_stale_extension", 1)
-		case len(okWrites) > 0 && rr.Chance(1, 3):
+		case len(okWrites) > 0 && rr.Chance(1, 3) && devFullUsable():
 			// a full disk for one output: simulated as a write error on that write, on the real directory as a
 			// symlink to /dev/full in its place
 			j := rr.Intn(len(okWrites))
@@ -891,4 +891,20 @@ func tailStrs(xs []string, n int) []string {
 		return xs[len(xs)-n:]
 	}
 	return xs
+}
+
+// devFullUsable: /dev/full must be the character device that fails every write with ENOSPC; anywhere it is not,
+// the sub-leg is skipped rather than guessed at.
+func devFullUsable() bool {
+	st, err := os.Stat("/dev/full")
+	if err != nil || st.Mode()&os.ModeCharDevice == 0 {
+		return false
+	}
+	f, err := os.OpenFile("/dev/full", os.O_WRONLY, 0)
+	if err != nil {
+		return false
+	}
+	defer f.Close()
+	_, werr := f.Write([]byte("x"))
+	return werr != nil
 }
